@@ -201,6 +201,10 @@ def run(prog: Program, rep: Report, tier: str):
     # the factors of the log-space product: each layer's log-Jacobian callable reads the diagonal blocks, in order
     from .c05 import rule_param_ctors
     rule_param_ctors(prog, rep, "C02.param-shape", declare=True)
+    # the planar inverse's log-det is minus the forward one only if the inverse selects the slope on the same side of
+    # the kink (w.y + b < 0 gets the negative slope, 0 itself the slope 1, as leaky_relu and its derivative do)
+    from .c01_pair import rule_planar_inverse
+    rule_planar_inverse(prog, rep, R="C02.planar-inverse")
     from .c09 import rule_bnaf_logjac_blocks
     rule_bnaf_logjac_blocks(prog, rep, "C02.bnaf-blocks")
     # sum of the transformer log-dets is log|det J| only for a triangular Jacobian: the last MADE layer is strict
